@@ -995,11 +995,15 @@ func Run(c *core.Case, sc Scenario) {
 	// ---- number of invocations and outcome
 	if stopped >= 0 {
 		c.Count("streams_ended_by_handler_error", 1)
-		if stopErr == io.EOF && serveErr == nil && stopped < expected {
-			reached := len(rec.invs) >= expected && ref.Term == "closing" && !ref.Nested
-			if !reached {
-				c.Violate("elem:outcome:handler-eof", "the handler returned io.EOF for element %d of %d; Serve returned nil without the peer's closing tag having been read (%d invocations)", stopped, expected, len(rec.invs))
-			}
+		// A handler's io.EOF must not be taken for the end of the input: Serve
+		// returned nil right after that invocation although more elements or a
+		// terminator other than the closing tag were still to come.  (When the
+		// session carries on after the handler's io.EOF nothing more is demanded.)
+		// (Not judged when that element is the one holding a nested terminator:
+		// what follows it is then the business of the nested-construct rule.)
+		lastWanted := stopped == expected-1 && (ref.Term == "closing" || ref.Nested)
+		if stopErr == io.EOF && serveErr == nil && len(rec.invs) == stopped+1 && stopped < expected && !lastWanted && ref.Term != "eof" {
+			c.Violate("elem:outcome:handler-eof", "the handler returned io.EOF for element %d of %d (terminator: %s); Serve returned nil right away without the peer's closing tag having been read", stopped, expected, termKey(ref))
 		}
 		return
 	}
